@@ -410,6 +410,9 @@ structure Decl where
   modifyBefore : List Modify
   modifyAfter : List Modify
   depot : List Entity
+  /-- the mesh was assembled, then cleared (`clear()` or `backport()`) and assembled again before it
+      was written: the second assembly sees all merged pairs and adds the entities' geometry again -/
+  reassembled : Bool := false
   deriving Repr
 
 /-! ### numbers -/
@@ -544,9 +547,13 @@ def blockEntry (i : Nat) (o : OpDecl) (verts : List Nat) : BEntry :=
 /-- non-deleted operations in depot order -/
 def declOps (d : Decl) : List OpDecl := liveOps d.depot
 
+/-- the merged pairs the (last) assembly knows -/
+def declMerged (d : Decl) : List (String × String) :=
+  if d.reassembled then d.mergedBefore ++ d.mergedAfter else d.mergedBefore
+
 /-- `Mesh._add_vertices` for all of them: the C05 model (slaves = merged pairs known at assembly) -/
 def declVA (d : Decl) : C05.VList Corner String × List (List (C05.Vertex Corner)) :=
-  C05.assemble closeCorner (C05.slavePatches d.mergedBefore) {} ((declOps d).map OpDecl.toC05)
+  C05.assemble closeCorner (C05.slavePatches (declMerged d)) {} ((declOps d).map OpDecl.toC05)
 
 /-- `Block.indexes` of every block -/
 def declBlocks (d : Decl) : List (List Nat) := (declVA d).2.map (·.map (·.index))
@@ -563,8 +570,9 @@ def facesOf (ob : List (OpDecl × List Nat)) : List FEntry := ob.foldl (fun fs x
 def edgesOf (ob : List (OpDecl × List Nat)) : List EEntry := ob.foldl (fun es x => addEdges es x.1 x.2) []
 
 def declGeometry (d : Decl) : List GEntry :=
-  d.geomAfter.foldl addGeometry
-    ((d.depot.flatMap (·.geometry)).foldl addGeometry (d.geomBefore.foldl addGeometry []))
+  (if d.reassembled then d.depot.flatMap (·.geometry) else []).foldl addGeometry
+    (d.geomAfter.foldl addGeometry
+      ((d.depot.flatMap (·.geometry)).foldl addGeometry (d.geomBefore.foldl addGeometry [])))
 
 def blocksOf (ob : List (OpDecl × List Nat)) : List BEntry :=
   ob.zipIdx.map (fun x => blockEntry x.2 x.1.1 x.1.2)
@@ -851,7 +859,8 @@ def rdDecl : Rd Decl := do
   let pb ← rdList rdModify
   let pa ← rdList rdModify
   let depot ← rdList rdEntity
-  pure ⟨ff, hc, ft, settings, gb, ga, mb, ma, dflt, pb, pa, depot⟩
+  let re ← rdBool
+  pure ⟨ff, hc, ft, settings, gb, ga, mb, ma, dflt, pb, pa, depot, re⟩
 
 def showToks (ts : List Tok) : String := " ".intercalate (ts.map (fun t => escape t.toString))
 
